@@ -186,12 +186,12 @@ def _identity(chk):
             ident_returns = []
             other_unguarded = []
             for r in returns_of(fn):
-                gs = ff.guards(r)
-                flagged = [g for g in gs if is_self_attr(g.test, flag)]
+                from .common import effective_guards
+                flagged = [(t, pol) for t, pol, _ in effective_guards(ff, r) if is_self_attr(t, flag)]
                 ps = ff.paths(r.value, spine_only=True) if r.value is not None else []
                 untouched = bool(ps) and all(p.atom.kind == "param" and p.atom.name == data_param and not p.ops for p in ps)
-                on_ident = any(g.polarity == ident_val for g in flagged)
-                on_other = any(g.polarity != ident_val for g in flagged)
+                on_ident = any(pol == ident_val for _, pol in flagged)
+                on_other = any(pol != ident_val for _, pol in flagged)
                 if on_ident:
                     ident_returns.append((r, untouched))
                 elif not on_other:
@@ -212,12 +212,19 @@ def _all_modes(chk):
     fn = pm.own_method("xeofs.preprocessing.pca.PCA", "_get_n_modes")
     ff = FuncFacts.of(fn)
     ok = False
+    from .common import effective_guards
+
+    def is_all(t, pol) -> bool:
+        # n_modes == "all" holds: `== "all"` true, or `!= "all"` false (early exit), either operand order
+        if not (isinstance(t, ast.Compare) and len(t.ops) == 1):
+            return False
+        sides = [t.left, t.comparators[0]]
+        if not any(const_str(x) == "all" for x in sides):
+            return False
+        return (isinstance(t.ops[0], ast.Eq) and pol) or (isinstance(t.ops[0], ast.NotEq) and not pol)
+
     for r in returns_of(fn):
-        gs = ff.guards(r)
-        if any(
-            isinstance(g.test, ast.Compare) and g.polarity and any(const_str(c) == "all" for c in g.test.comparators)
-            for g in gs
-        ):
+        if any(is_all(t, pol) for t, pol, _ in effective_guards(ff, r)):
             ps = ff.paths(r.value, spine_only=True)
             ok = bool(ps) and all(
                 p.atom.kind == "param" and [(o.kind, o.name) for o in p.ops] == [("attr", "shape"), ("arg", "min")]
